@@ -13,7 +13,8 @@ from common import Ctx, Failure, main_wrapper
 
 PID = "C01"
 RULE = ("Hypothesis-generated (config incl. a format naming every data source, process environment incl. NULL and > limit, "
-        "history of 1..3 execv/execve calls in one process each with path, argv, envp, scripted ret/errno | real exec); "
+        "history of 1..3 execv/execve calls in one process each with path, argv, envp, scripted ret/errno | real exec; three histories in ten "
+        "with a sink condition: file size limit inside the record (genuine short write), /dev/full, or no free descriptor during the call); "
         "non-trivial = config is not the default/absent one AND (argv or envp shape is not a short plain vector "
         "OR the exec really succeeds); distinct by (config kind, has filter chain, argv class, envp class, errno, real)")
 
@@ -55,8 +56,24 @@ def strategy():
             environ = None if envkind == "null" else "keep"
         ncalls = draw(st.sampled_from([1, 1, 2, 3]))
         calls = [draw(call(i == ncalls - 1)) for i in range(ncalls)]
-        return {"cfg": cfg, "environ": environ, "calls": calls, "pre_errno": draw(st.sampled_from([0, 0, 0, 34, 4, 11]))}
+        c = {"cfg": cfg, "environ": environ, "calls": calls, "pre_errno": draw(st.sampled_from([0, 0, 0, 34, 4, 11]))}
+        # "regardless of whether anything was logged": the sink gives out in the middle of the record (a genuine short write), takes
+        # nothing at all, or the program has no descriptor left for the library to open anything
+        cond = draw(st.sampled_from([None] * 7 + ["shortwrite", "devfull", "nofile"]))
+        if cond:
+            c = with_condition(c, cond)
+        return c
     return case()
+
+
+def with_condition(c, cond):
+    cfg = c["cfg"]
+    if cond in ("shortwrite", "devfull"):
+        dest = b"file:@OUT@/log" if cond == "shortwrite" else b"file:/dev/full"
+        opts = [(k, v) for k, v in cfg["opts"] if k != b"output"] + [(b"output", dest)]
+        cfg = dict(cfg, opts=opts, ini=gen.render_ini(opts), kind="file")
+    calls = [dict(k, real=False) for k in c["calls"]]      # (a really started program would inherit the limits)
+    return dict(c, cfg=cfg, calls=calls, condition=cond)
 
 
 def scenario(o, c):
@@ -67,7 +84,16 @@ def scenario(o, c):
         ops.append(drv.op_env(drv.vec_list(c["environ"])) if c["environ"] is not None else drv.op_env(None))
     ops.append(drv.op("e", c.get("pre_errno", 0)))
     for k in c["calls"]:
+        cond = c.get("condition")
+        if cond == "shortwrite":
+            ops.append(drv.op("l", 10 * (len(ops) % 3) + 1))      # file size limit inside the first record (SIGXFSZ ignored): write() comes back short
+        elif cond == "nofile":
+            ops.append(drv.op("R", 0))
         ops.append(drv.op_exec(k["kind"], k["path"], k["argv"], k["envp"], ret=k["ret"], err=k["err"], real=k["real"]))
+        if cond == "shortwrite":
+            ops.append(drv.op("l", 1 << 40))
+        elif cond == "nofile":
+            ops.append(drv.op("R", -1))
         ops += [drv.op("L"), drv.op("G")]
     return ops
 
@@ -160,6 +186,10 @@ def classify(c):
     key = (cfg["kind"], haschain, tuple(shapes), envk, c["calls"][-1]["err"]) if nontriv else None
     cls = ["cfg:" + cfg["kind"], "calls:%d" % len(c["calls"]), "environ:" + envk, "real" if anyreal else "scripted"]
     cls += ["argv:" + sh[1] for sh in shapes[:1]] + ["envp:" + sh[2] for sh in shapes[:1]]
+    if c.get("condition"):
+        cls.append("sink-condition:" + c["condition"])
+        if key is not None:
+            key = key + (c["condition"],)
     if cfg.get("alldatasources"):
         cls.append("format:all-data-sources")
     if len({sh[0] for sh in shapes}) > 1:
@@ -195,6 +225,9 @@ FIXED = [
     {"cfg": _cfg([(b"message_format", b"%{env_all}"), (b"output", b"devnull")], "devnull"), "environ": [b"BIG=" + b"b" * 4000, b"Z=1"],
      "calls": [_call("v", real=True)]},                                                                                 # env_all must not touch the environment
     {"cfg": _cfg([(b"output", b"file:@OUT@/log"), (b"output", b"devnull")], "file"), "environ": "keep", "calls": [_call("e"), _call("e")]},
+    {"cfg": _cfg([(b"output", b"file:@OUT@/log")], "file"), "environ": "keep", "calls": [_call("e"), _call("v", ret=0, err=0), _call("e", err=13)], "condition": "shortwrite"},
+    {"cfg": _cfg([(b"output", b"file:/dev/full"), (b"error_logging", b"yes")], "file"), "environ": "keep", "calls": [_call("e", err=28), _call("v", err=0)], "condition": "devfull"},
+    {"cfg": _cfg([(b"output", b"file:@OUT@/log")], "file"), "environ": "keep", "calls": [_call("e", err=24), _call("v"), _call("e", ret=0, err=0)], "condition": "nofile"},
     {"cfg": _cfg([(b"filter_chain", b"only_uid:4242")], "default"), "environ": None, "calls": [_call("e", argv=None, envp=None, ret=2147483647, err=133)]},
 ]
 
